@@ -891,9 +891,23 @@ func (ex *Exec) evalBinary(st *State, e *ast.BinaryExpr, sc *SpecCtx) *Val {
 				st2.assume(not(a.S))
 			}
 		}
+		npc := len(st.pc)
 		b := ex.eval(st2, e.Y, sc)
 		if sc == nil {
+			// facts learnt while evaluating the right operand (e.g. the range of a call's result) hold whenever
+			// it was evaluated at all
+			guard := a.S
+			if e.Op == token.LOR {
+				guard = not(a.S)
+			}
+			var extra []string
+			if len(st2.pc) > npc+1 {
+				extra = append(extra, st2.pc[npc+1:]...)
+			}
 			ex.adoptSideEffects(st, st2, a.S, e.Op == token.LAND)
+			if len(extra) > 0 && len(st.pc) == npc {
+				st.assume(implies(guard, and(extra...)))
+			}
 		}
 		if e.Op == token.LAND {
 			return ex.boolVal(and(a.S, b.S))
